@@ -3,7 +3,7 @@ import ArtapModel.Proofs.Bench
 # C15 — single-objective benchmarks: optimum where and as documented (theorems over ℝ)
 
 The formulas are the polymorphic definitions of `Model/Bench.lean` (the very terms the driver runs on
-`Float` against the implementation), read in `Num ℝ`.  For each of the fourteen families below and
+`Float` against the implementation), read in `Num ℝ`.  For each of the fourteen families Sphere … XinSheYang3 and
 **every dimension `n`**:
 
 * `F_at_opt` – the value at the documented coordinates is the documented optimum,
@@ -14,12 +14,12 @@ Guards are explicit, never totalisation: `1 ≤ n` / `xs ≠ []` where the code 
 through the model's table (`optCoords`, `optimum`, `eval`), i.e. with exactly the constants the
 harness compares with the implementation's `global_optimum`, `global_optimum_coords`.
 
-Not proved here (partial, tested by dense search on the implementation — see `harness/c15.py`):
-the bound clause of SixHump and both numeric clauses of Schwefel, Michalewicz (2, 5, 10), Schubert,
-GramacyLee, Synthetic1D, Synthetic2D, Synthetic5D, Synthetic10D (they need verified interval arithmetic
-for `sin`/`exp` on boxes, or an SOS certificate for the six-hump polynomial).  Full statements kept for
-the record:
-
+Partial (named `…_partial`): for SixHump, Synthetic1D, Synthetic2D, Synthetic5D, Synthetic10D only the value
+clause is proved (`|f(documented coordinates) − documented optimum| ≤ 10⁻³`).
+Not proved here (tested by dense search on the implementation — see `harness/c15.py`): the bound clause of
+those five, and both numeric clauses of Schwefel, Michalewicz (2, 5, 10), Schubert, GramacyLee (they need
+verified interval arithmetic for `sin`/`exp` on boxes, or an SOS certificate for the six-hump polynomial).
+Full statements kept for the record:
   -- theorem sixHump_bound (x y : ℝ) (hx : -3 ≤ x ∧ x ≤ 3) (hy : -2 ≤ y ∧ y ≤ 2) : -1.0316 - 1e-3 ≤ sixHump x y
   -- theorem schwefel_bound (xs) (h : ∀ c ∈ xs, -500 ≤ c ∧ c ≤ 500) : 0 - 1e-3 ≤ schwefel xs          (n ≤ 30)
   -- theorem schwefel_at_opt (n ≤ 30) : |schwefel (replicate n 420.9687) - 0| ≤ 1e-3
@@ -117,6 +117,22 @@ example : ∀ e ∈ ([1 / 2, 0, 1] : List ℝ), 0 ≤ e ∧ e ≤ 1 := by
 /-! ## Six-hump camel back: value clause only (bound: tested, see header) -/
 theorem sixHump_at_opt_partial :
     |sixHump (898 / 10000 : ℝ) (-(7126 / 10000)) - (-(10316 / 10000))| ≤ 1 / 1000 := sixHump_documented
+
+/-! ## Synthetic 1D / 2D / 5D / 10D (maximised): value clause only (bound: tested, see header) -/
+/-- `|f(11) − 3.23| ≤ 10⁻³` (`exp(−9/2)`, `exp(−50/9)` from Taylor bounds, twelve tails below `2⁻¹⁸`) -/
+theorem synthetic1D_at_opt_partial : |synthetic1D (11 : ℝ) - 323 / 100| ≤ 1 / 1000 := synthetic1D_documented
+/-- `|f(3, 4) − 1.21112| ≤ 10⁻³` -/
+theorem synthetic2D_at_opt_partial : |synthetic2D (3 : ℝ) 4 - 121112 / 100000| ≤ 1 / 1000 := synthetic2D_documented
+/-- at the documented coordinates the ten Gaussians sum to `1.2` within `10⁻³` -/
+theorem synthetic5D_at_opt_partial :
+    ∃ v : ℝ, eval .synthetic5D [nat 3, nat 4, rat (13/10), nat 5, nat 5] = some v ∧ |v - 12 / 10| ≤ 1 / 1000 :=
+  synthetic5D_documented
+theorem synthetic10D_at_opt_partial :
+    ∃ v : ℝ, eval .synthetic10D [nat 3, nat 4, rat (13/10), nat 5, nat 5, nat 3, nat 4, rat (13/10), nat 5, nat 5]
+      = some v ∧ |v - 12 / 10| ≤ 1 / 1000 :=
+  synthetic10D_documented
+example : optCoords .synthetic5D 5 = some ([nat 3, nat 4, rat (13/10), nat 5, nat 5] : List ℝ) ∧
+    optimum .synthetic5D 5 = some (rat (12/10) : ℝ) ∧ minimised .synthetic5D = false := ⟨rfl, rfl, rfl⟩
 
 /-! ## The same two clauses through the model's table -/
 
